@@ -22,6 +22,13 @@
 //   - histograms of instruments that may record negative values carry no sum
 //     (documented); only their count is compared.
 //   - a metric with zero data points and an absent metric are the same.
+//   - a stream's aggregation is the view's if the view names one, where
+//     AggregationDefault{} means DefaultAggregationSelector(kind) whatever the
+//     reader selects ("ensures the default is used"); otherwise what the
+//     reader's aggregation selector returns for the kind (nil and
+//     AggregationDefault{} = the default); a Drop selected by a reader removes
+//     the stream for that reader only. Selector answers the SDK rejects for a
+//     kind (sum for gauges, last value for non-gauges) are not generated.
 //   - a result stream is identified by (case-insensitive name, unit, kind,
 //     number type). Two (view, instrument) pairs with one identity but
 //     different aggregation / filter, and two identities that would look the
@@ -159,6 +166,34 @@ func temporalitySelector(mode int) sdkmetric.TemporalitySelector {
 	}
 }
 
+func aggregationSelector(sel []int) sdkmetric.AggregationSelector {
+	return func(k sdkmetric.InstrumentKind) sdkmetric.Aggregation {
+		hk := harnessKind(k)
+		if hk < 0 {
+			return nil
+		}
+		switch sel[hk] {
+		case raNil:
+			return nil
+		case raAggDefault:
+			return sdkmetric.AggregationDefault{}
+		case raDrop:
+			return sdkmetric.AggregationDrop{}
+		case raExpo:
+			return sdkmetric.AggregationBase2ExponentialHistogram{MaxSize: 160, MaxScale: 20}
+		case raHist2:
+			return sdkmetric.AggregationExplicitBucketHistogram{Boundaries: append([]float64{}, boundsTable[2]...)}
+		case raHist3:
+			return sdkmetric.AggregationExplicitBucketHistogram{Boundaries: append([]float64{}, boundsTable[3]...)}
+		case raSum:
+			return sdkmetric.AggregationSum{}
+		case raLast:
+			return sdkmetric.AggregationLastValue{}
+		}
+		return sdkmetric.DefaultAggregationSelector(k)
+	}
+}
+
 func buildView(v View) sdkmetric.View {
 	var crit sdkmetric.Instrument
 	switch v.NameMode {
@@ -239,7 +274,11 @@ func run(c Case) ([]vk.Violation, vk.Info) {
 	readers := make([]*sdkmetric.ManualReader, len(c.Readers))
 	opts := []sdkmetric.Option{sdkmetric.WithResource(resource.Empty())}
 	for i, mode := range c.Readers {
-		readers[i] = sdkmetric.NewManualReader(sdkmetric.WithTemporalitySelector(temporalitySelector(mode)))
+		ro := []sdkmetric.ManualReaderOption{sdkmetric.WithTemporalitySelector(temporalitySelector(mode))}
+		if i < len(c.Selectors) && len(c.Selectors[i]) == nKinds {
+			ro = append(ro, sdkmetric.WithAggregationSelector(aggregationSelector(c.Selectors[i])))
+		}
+		readers[i] = sdkmetric.NewManualReader(ro...)
 		opts = append(opts, sdkmetric.WithReader(readers[i]))
 	}
 	for _, v := range c.Views {
@@ -509,7 +548,7 @@ func run(c Case) ([]vk.Violation, vk.Info) {
 
 	// ---- classification ----
 	overflow, merge, multiView := false, false, false
-	for _, m := range models {
+	for mi, m := range models {
 		for i := range c.Insts {
 			n, live := 0, 0
 			for _, v := range c.Views {
@@ -533,8 +572,17 @@ func run(c Case) ([]vk.Violation, vk.Info) {
 				continue
 			}
 			if s.agg.kind == aDrop {
-				info.Class("drop_view")
+				info.ClassIf(!s.readerChosen, "drop_view")
+				info.ClassIf(s.readerChosen, "reader_selector_drops_stream")
 				continue
+			}
+			info.ClassIf(s.readerChosen, "reader_selector_reaggregates_stream/"+aggNames[s.agg.kind])
+			info.ClassIf(s.explicitDefault, "view_explicit_default_overrides_reader_selector")
+			info.ClassIf(s.explicitDefault && s.scopeEver, "view_explicit_default_overrides_reader_selector(with measurements)")
+			for _, src := range s.sources {
+				ra := c.selectorOf(mi, c.Insts[src].Kind)
+				info.ClassIf(s.explicitDefault && ra == raDrop && s.scopeEver, "view_explicit_default_vs_reader_drop(with measurements)")
+				info.ClassIf(s.explicitDefault && ra != raDrop && s.scopeEver, "view_explicit_default_vs_reader_other_aggregation(with measurements)")
 			}
 			overflow = overflow || s.sawOverflow
 			merge = merge || s.sawMerge
@@ -583,6 +631,17 @@ func run(c Case) ([]vk.Violation, vk.Info) {
 	}
 	info.Class("limit/" + map[bool]string{true: c.Env, false: "unlimited"}[limit > 0])
 	info.ClassIf(len(c.Readers) == 2, "two_readers")
+	info.ClassIf(len(c.Selectors) > 0, "reader_aggregation_selector")
+	if len(models) == 2 {
+		for id, a := range models[0].byID {
+			if b := models[1].byID[id]; b != nil && (a.agg.kind == aDrop) != (b.agg.kind == aDrop) && (a.readerChosen || b.readerChosen) {
+				info.Class("stream_dropped_for_one_reader_only")
+			}
+			if b := models[1].byID[id]; b != nil && a.agg.kind != aDrop && b.agg.kind != aDrop && a.agg != b.agg {
+				info.Class("stream_aggregated_differently_per_reader")
+			}
+		}
+	}
 	info.ClassIf(skippedCollect, "reader_skips_a_cycle")
 	info.ClassIf(c.MultiCB && len(allObs) > 0, "multi_instrument_callback")
 	info.ClassIf(collections >= 3, "collections>=3")
@@ -733,7 +792,7 @@ func keysOf(m map[string]expPoint) []string {
 	return out
 }
 
-const ruleCommon = "history = >=3 cycles of synchronous measurements / callback observations over a pool of attribute sets (structured a,b,c sets, the overflow set itself and near misses), then Collect on one or two ManualReaders (delta / cumulative / mixed; a reader may skip a cycle); limit from {unset,1,2,3,5,10} (rarely 0/-1); exactly summable values k*2^e; " +
+const ruleCommon = "history = >=3 cycles of synchronous measurements / callback observations over a pool of attribute sets (structured a,b,c sets, the overflow set itself and near misses), then Collect on one or two ManualReaders (delta / cumulative / mixed; a reader may skip a cycle; about half of the readers carry an aggregation selector answering per kind with the default / nil / AggregationDefault / drop / exponential / other buckets / sum / last value as far as the kind accepts it); limit from {unset,1,2,3,5,10} (rarely 0/-1); exactly summable values k*2^e; " +
 	"non-trivial = in some stream more than L distinct filtered sets arrive within one lifetime, or an attribute filter merges >= 2 distinct sets, or >= 2 views match one instrument; distinct = distinct case encodings"
 
 func TestLimitModel(t *testing.T) {
@@ -748,7 +807,7 @@ func TestLimitModel(t *testing.T) {
 func TestViewsModel(t *testing.T) {
 	vk.Run(t, vk.Spec[Case]{
 		Property: "C12", Check: "views_model",
-		Rule:  "1-4 instruments (often twins differing in one identifying field), 0-6 views selected by exact name / wildcard pattern / kind / unit / combinations: attribute filters, renames (name, unit), re-aggregations (sum<->histogram, exponential, default), drop, several views per instrument, verbatim duplicate views, two instruments renamed to one name (same or different identity), kind/unit-wide renames; conflicting duplicate definitions of one stream are removed; pools of up to 12 sets; " + ruleCommon,
+		Rule:  "1-4 instruments (often twins differing in one identifying field), 0-6 views selected by exact name / wildcard pattern / kind / unit / combinations: attribute filters, renames (name, unit), re-aggregations (sum<->histogram, exponential, explicit AggregationDefault{} - biased towards instruments whose kind a reader re-aggregates or drops), drop, several views per instrument, verbatim duplicate views, two instruments renamed to one name (same or different identity), kind/unit-wide renames; conflicting duplicate definitions of one stream are removed; pools of up to 12 sets; " + ruleCommon,
 		Quick: 15000, Thorough: 200000,
 		Gen: genViewsCase, Run: run,
 	})
